@@ -13,7 +13,13 @@ check : (A) kernels, tied to the model: constant-expression trees INCLUDING unde
             functions with locals, every statement kind and operator) are compiled by c_to_ir (x86_64);
             any exception other than CompilerError is a failing input, identified by exception type
             and the innermost ppci frame.
-The C3 and textual-IR front-ends are not modelled here and not searched by this module."""
+        (C) search only: C3 programs of harness/c37.py's generator (+ its corpus and its internal-error probes)
+            through ppci.lang.c3.c3_to_ir and api.optimize at levels 0, 1, 2, s;
+        (D) search only: IR modules of harness/c15_common.py's corner cases and generators (+ C front-end
+            output) are printed with print_module and read back with ppci.irutils.read_module, verified and
+            optimised at every level.
+Signatures of internal errors: "<front-end>:<ExceptionClass>:<innermost ppci module.function>" with
+front-end in c / c3 / irtext (an exception of api.optimize after a successful read/compile: c3+opt / irtext+opt)."""
 import io
 import json
 import logging
@@ -24,18 +30,23 @@ from . import cexpr as X
 
 PROP = "C28"
 LEAN_PROPS = "PpciVerif/Props/C28.lean"
-LEAN_TARGETS = ["PpciVerif.Props.C28", "Drivers.C28"]
+LEAN_PROPS_EXTRA = ["PpciVerif/Props/C28X.lean"]      # corollaries of C15 (IR text reader) and C37 (C3 lowering tables)
+LEAN_TARGETS = ["PpciVerif.Props.C28", "PpciVerif.Props.C28X", "Drivers.C28"]
 LEVEL = "proof"
 LEVEL_TEXT = (
-    "PARTIAL (a sliver of the property). Lean theorems of totality for the modelled kernels of the C front-end only: for EVERY "
-    "constant-expression tree the parser can produce (defined or undefined in C, any size) used as a global initialiser of any "
-    "integer type, a case label, an enumerator or an array size, the model of ppci's pipeline (semantic typing, "
-    "ConstantExpressionEvaluator, CContext.pack) ends with a value or the diagnostic CompilerError, never with another exception; "
-    "CContext.pack returns bytes for every integer and every integer type (no struct.error); `#if` on every sentence of the #if "
-    "expression grammar keeps/skips the group or reports a diagnostic. Proved after the fix commits of C27/C26; the pre-fix code is "
-    "kept as a model with Lean-proved internal-error witnesses. Everything else the property covers — declarations, statements and "
-    "code generation of the C front-end — is only SEARCHED with generated valid C programs (no theorem); the C3 and IR-text "
-    "front-ends are neither modelled nor searched here."
+    "PARTIAL. THEOREMS (Lean), for modelled kernels only: (C front-end, Props/C28.lean) for EVERY constant-expression tree the "
+    "parser can produce (defined or undefined in C, any size) used as a global initialiser of any integer type, a case label, an "
+    "enumerator or an array size, the model of ppci's pipeline (semantic typing, ConstantExpressionEvaluator, CContext.pack) ends "
+    "with a value or the diagnostic CompilerError, never with another exception; CContext.pack returns bytes for every integer and "
+    "every integer type (no struct.error); `#if` on every sentence of the #if expression grammar keeps/skips the group or reports a "
+    "diagnostic. (IR text and C3, Props/C28X.lean: corollaries of C15 and C37, nothing new proved) the model of the IR text reader "
+    "ends in a module, not an error, on the printed text of every module of C15's text fragment; the C3 operator/comparison lowering "
+    "lookups resolve for every operator and integer type of both modelled targets. Proved after the fix commits of C27/C26/C15/C37; "
+    "pre-fix internal errors are kept as Lean witnesses. SEARCH ONLY (no theorem): everything else the property covers — "
+    "declarations/statements/code generation of the C front-end (generated valid translation units through c_to_ir), the C3 "
+    "front-end (programs of C37's generator through c3_to_ir and api.optimize at levels 0,1,2,s), the IR text front-end (printed "
+    "modules of C15's generators through read_module, verify and api.optimize at every level). Known internal errors of the three "
+    "front-ends are listed as open findings and reproduced on every run."
 )
 LEVEL_NOTE = (
     "trusted: Lean kernel; axioms propext/Classical.choice/Quot.sound; the hand models Model.CEval / Model.PPExpr (tied to the source by "
@@ -56,6 +67,12 @@ TRUSTED = [
     "CompilerError is the only diagnostic class of the C front-end",
 ]
 ASSUMPTIONS = ["x86_64 target for c_to_ir", "generated shift counts are at most 2^40 (CPython big-int limits beyond that)"]
+
+
+def regen(ctx):
+    """Props/C28X.lean imports C37's table theorems: keep Gen/C3Tab.lean in step with the checked tree"""
+    from . import c37
+    c37.regen(ctx)
 
 
 # ----------------------------------------------------------------------------------------------
@@ -418,7 +435,7 @@ CORPUS_B = [
     "int f(int x) { int r = 0; for (int i = 0; i < 10; i++) { if (i % 3 == 0) continue; r += i << 1; } while (r > 3) r /= 2; do r--; while (r > 0); return r ? x : -x; }\n",
     "typedef unsigned long T; T g = 5; T h(T a, unsigned char b) { return a * b + (T)-1 / 3; }\n",
     "int g; int *p = &g; int f(void) { int *q = &g; *q = 3; return *p + sizeof(g) + sizeof(int); }\n",
-    # syntactically valid, violates a constraint: must be a diagnostic (open finding unit:internal:TypeError:ir.setter)
+    # syntactically valid, violates a constraint: must be a diagnostic (open finding c:TypeError:ir.setter)
     "void f(void) {}\nvoid g(void) { long long v = f(); }\n",
 ]
 
@@ -482,7 +499,7 @@ def check_programs(ctx):
             if shrunk < 6:
                 small = shrink_unit(src, st)
                 shrunk += 1
-            ctx.fail("unit:" + st, f"c_to_ir raised {st.split(':')[1]} in {st.split(':')[2]} ({msg}) on valid C: {small!r}",
+            ctx.fail("c:" + st.split(":", 1)[1], f"c_to_ir raised {st.split(':')[1]} in {st.split(':')[2]} ({msg}) on valid C: {small!r}",
                      {"source": small}, impl=st)
         elif st == "diag" and g is not None:
             ctx.count("unit_diag_generated")
@@ -490,9 +507,140 @@ def check_programs(ctx):
     ctx.extra_cov["units_rejected_by_diagnostic"] = int(ctx.counts.get("unit_diag_generated", 0))
 
 
+# ----------------------------------------------------------------------------------------------
+# part C: the C3 front-end (search only)
+def exc_signature(fe):
+    tb = traceback.format_exc()
+    import sys
+    e = sys.exc_info()[1]
+    return f"{fe}:{type(e).__name__}:{innermost_frame(tb)}", str(e)[:160]
+
+
+def compile_c3(src, march, level):
+    """-> ("ok"|"diag"|signature, message)"""
+    from contextlib import redirect_stdout
+    from ppci import api
+    from ppci.lang.c3 import c3_to_ir
+    from ppci.common import CompilerError
+    from ppci.build.tasks import TaskError
+    logging.disable(logging.CRITICAL)
+    try:
+        with redirect_stdout(io.StringIO()):
+            m = c3_to_ir([io.StringIO(src)], [], march)
+    except (CompilerError, TaskError) as e:
+        return "diag", str(getattr(e, "msg", e))[:160]
+    except Exception:  # noqa
+        return exc_signature("c3")
+    try:
+        with redirect_stdout(io.StringIO()):
+            api.optimize(m, level=level)
+    except (CompilerError, TaskError) as e:
+        return "diag", str(getattr(e, "msg", e))[:160]
+    except Exception:  # noqa
+        return exc_signature("c3+opt")
+    return "ok", ""
+
+
+def check_c3(ctx):
+    from . import c37
+    cases = [("probe:" + what, src, "x86_64") for what, src in c37.INTERNAL_PROBES]
+    for march, intty in (("x86_64", "i32"), ("msp430", "i16")):
+        for k, (prog, _args) in enumerate(c37.corpus_programs(intty)):
+            cases.append((f"corpus{k}:{march}", c37.Render(prog).c3(), march))
+    n32, n16 = (90, 30) if ctx.thorough else (18, 6)
+    pid = 0
+    for march, intty, n in (("x86_64", "i32", n32), ("msp430", "i16", n16)):
+        for _ in range(n):
+            pid += 1
+            cases.append((f"gen{pid}:{march}", c37.Render(c37.PGen(ctx.rng, intty, pid).program()).c3(), march))
+    for label, src, march in cases:
+        levels = (0, 1, 2, "s") if (ctx.thorough or not label.startswith("gen")) else (0, 2)
+        if label.startswith("probe"):
+            levels = (0,)
+        for lv in levels:
+            ctx.count("eval_c3")
+            st, msg = compile_c3(src, march, lv)
+            ctx.count("c3_" + st.split(":")[0])
+            if st not in ("ok", "diag"):
+                ctx.fail(st, f"C3 front-end ({march}, -O{lv}) raised {st.split(':')[1]} in {st.split(':')[2]} ({msg}): {src[:300]!r}",
+                         {"source": src, "march": march, "level": str(lv), "label": label}, impl=st)
+                break
+        if label.startswith("gen"):
+            ctx.nontrivial(src)
+
+
+# ----------------------------------------------------------------------------------------------
+# part D: the IR text front-end (search only)
+def read_ir_text(text, label, optimise):
+    from ppci import api
+    from ppci.irutils import read_module, verify_module
+    from ppci.irutils.reader import IrParseException
+    from ppci.common import CompilerError, IrFormError
+    logging.disable(logging.CRITICAL)
+    diag = (IrParseException, IrFormError, CompilerError)
+    try:
+        m = read_module(io.StringIO(text))
+    except diag as e:
+        return "diag", str(e)[:160]
+    except Exception:  # noqa
+        return exc_signature("irtext")
+    if not optimise:
+        return "ok", ""
+    try:
+        verify_module(m)
+    except diag as e:
+        return "diag", "verify: " + str(e)[:140]
+    except Exception:  # noqa
+        return exc_signature("irtext+verify")
+    for lv in (0, 1, 2, "s"):
+        try:
+            m2 = read_module(io.StringIO(text))
+            api.optimize(m2, level=lv)
+        except diag as e:
+            return "diag", f"optimize {lv}: " + str(e)[:130]
+        except Exception:  # noqa
+            sig, msg = exc_signature("irtext+opt")
+            return sig, f"-O{lv}: {msg}"
+    return "ok", ""
+
+
+def check_irtext(ctx):
+    from . import c15_common as K
+    from ppci.irutils import print_module
+    mods = []
+    for label, m, reason, _ in K.corner_modules():
+        mods.append((label, m, reason is None and not label.startswith(("float-", "finding-"))))
+    cover = lambda k: None  # noqa: E731
+    for label, g in K.generated(ctx, 40 if ctx.thorough else 8, cover):
+        mods.append((label, g.module, True))
+    try:
+        for label, g in K.c_modules(ctx):
+            mods.append((label, g.module, True))
+    except Exception as e:  # noqa - the C front-end samples are a bonus
+        ctx.note("c_modules unavailable: " + type(e).__name__)
+    for label, m, optimise in mods:
+        ctx.count("eval_irtext")
+        try:
+            f = io.StringIO()
+            print_module(m, file=f, verify=False)
+            text = f.getvalue()
+        except Exception:  # noqa - the writer is C15's business
+            ctx.count("irtext_print_failed")
+            continue
+        st, msg = read_ir_text(text, label, optimise)
+        ctx.count("irtext_" + st.split(":")[0])
+        if label.startswith("gen"):
+            ctx.nontrivial(label + text[:200])
+        if st not in ("ok", "diag"):
+            ctx.fail(st, f"IR text front-end raised {st.split(':')[1]} in {st.split(':')[2]} ({msg}) on the printed module {label!r}: {text[:300]!r}",
+                     {"label": label, "text": text[:3000]}, impl=st)
+
+
 def check(ctx):
     check_kernels(ctx)
     check_programs(ctx)
+    check_c3(ctx)
+    check_irtext(ctx)
     ctx.extra_cov["exhaustive"] = False
 
 
